@@ -688,6 +688,13 @@ impl Range {
     }
 }
 
+/// Verification hook: the normalization of one value for a range given by its limits,
+/// exactly as the simple iterator applies it. Only compiled with `--cfg e57_verif`.
+#[cfg(e57_verif)]
+pub(crate) fn verif_normalize(min: f64, max: f64, value: f64) -> Result<f32> {
+    Ok(Range::from_min_max(min, max)?.normalize(value))
+}
+
 #[cfg(test)]
 mod tests {
     use super::*;
